@@ -121,12 +121,13 @@ impl<'a> RequirementsResolver<'a> {
             .enumerate()
             .find(|(_, frame)| frame.fn_start_ip == Some(entry_pc_rel))
             .map(|(num, _)| -> Result<DwarfRegisterMap, Error> {
-                // try to use the built-in unwinder if the frame is determined
+                // try to use the built-in unwinder if the frame is determined,
+                // registers at the function entry are the registers of the caller frame
                 let mut registers = RegisterMap::current(ecx.pid_on_focus())?.into();
                 self.debugee.restore_registers_at_frame(
                     ecx.pid_on_focus(),
                     &mut registers,
-                    num as u32,
+                    num as u32 + 1,
                 )?;
                 Ok(registers)
             })
